@@ -247,6 +247,14 @@ def comDispatchOk (L : LexCfg) : Bool :=
   (lookup L.identifiers '/').isNone && L.keys.contains ['/', '*']
   && (lookup L.strStarts ['/', '*']).isNone && lookup L.comments ['/', '*'] == some ['*', '/']
 
+/-- what reading a raw string with a one-character delimiter needs of the tables -/
+def rawReadOk (c : Cfg) (rawEsc : Bool) : Bool :=
+  c.q != '\\' && (!rawEsc || c.isQuote c.q || !c.isEsc c.q)
+
+/-- every raw-string start with a one-character delimiter of these dispatch tables satisfies `rawReadOk` -/
+def lexRawOk (L : LexCfg) : Bool :=
+  L.strStarts.all fun (_, info) => !(info.raw && info.delim.length == 1) || (info.delim == [info.cfg.q] && rawReadOk info.cfg L.rawEsc)
+
 /-- `Generator.maybe_comment`, the plain (not separated, `pretty=False`) form `f"{sql} {' '.join(comments_list)}"` with
     `comments_list = [f"/*{sanitize_comment(c)}*/" for c in comments if c]` -/
 def maybeComment (isSpace : Char → Bool) (sql : List Char) (comments : List (List Char)) : List Char :=
